@@ -354,7 +354,27 @@ class ReloadDriver(Driver):
     pool the driver's spec / model (job scripts, target picking) follow the
     new definition."""
 
-    COMMANDS = Driver.COMMANDS + ('reload-edit',)
+    COMMANDS = Driver.COMMANDS + ('reload-edit', 'remove-partial')
+
+    async def cmd_remove_partial(self, n):
+        """`cylc remove` of a waiting task that has some prerequisites
+        satisfied and others not (n-th such task; nothing if there is none).
+        When its remaining parents finish it is spawned again, with the
+        prerequisites on the outputs that are already recorded unsatisfied."""
+        from cylc.flow import commands
+        sim = self.sim
+        if not sim.running:
+            return
+        snap = sim.pool_snapshot()
+        cands = sorted(
+            f"{a['cycle']}/{a['name']}" for a in snap
+            if a['status'] == 'waiting' and a.get('sat')
+            and any(a['sat'].values()) and not all(a['sat'].values()))
+        if not cands:
+            return
+        id_ = cands[n % len(cands)]
+        await self._run('remove', commands.remove_tasks(sim.schd, [id_], []),
+                        task=id_, flow=[], partial=True)
 
     async def step(self, op, n, *rest) -> None:
         if op == 'round':
